@@ -389,6 +389,8 @@ func genFor(prop string) error {
 	switch prop {
 	case "C18":
 		return genC18()
+	case "C15":
+		return genC15()
 	}
 	return nil
 }
